@@ -89,12 +89,6 @@ def run(R):
     for i in range(0, len(jobs), 1500):
         recs = gramrun.run_grammars(jobs[i:i + 1500])
         gramrun.compare(R, recs, 'rep-sep', mechanism_of)
-        bad, nflags = gramrun.flags_lines(recs)
-        st = R.stream('flags')
-        st['cases'] += nflags
-        for (r, idx, want, got) in bad[:20]:
-            R.disagree('flags', {'grammar': r['desc'], 'rule': r['ex']['rule_names'][idx]},
-                       'python flags ' + want, 'model flags ' + got)
     R.assumptions += ['regular expressions are an oracle (tables computed with Python re)',
                       'e{m,n} with a run-time m > n is outside the property (the constructor rejects it for literals): the specification makes no claim there']
     return R.finish(
